@@ -140,3 +140,53 @@ def check_sat(pcs, timeout_s=5, nproc=None):
     for idx, status, model, t, backend in outs:
         res[idx] = status
     return res
+
+
+def discharge_texts(obligations, timeout_s=20, nproc=None):
+    """Same as discharge() for already serialised obligations (dicts with 'smt2')."""
+    jobs = []
+    results = [None] * len(obligations)
+    for i, ob in enumerate(obligations):
+        if ob.get("vacuous"):
+            results[i] = {"status": "vacuous", "model": None, "time_s": 0.0, "backend": "-"}
+        elif ob.get("trivial"):
+            results[i] = {"status": "unsat", "model": None, "time_s": 0.0, "backend": "z3-simplify"}
+        else:
+            jobs.append((i, ob["smt2"], int(timeout_s * 1000), None))
+    nproc = nproc or NPROC
+    if len(jobs) <= 2 or nproc <= 1:
+        outs = [_solve_one(j) for j in jobs]
+    else:
+        with mp.get_context("fork").Pool(min(nproc, len(jobs))) as pool:
+            outs = pool.map(_solve_one, jobs, chunksize=1)
+    for idx, status, model, t, backend in outs:
+        results[idx] = {"status": status, "model": model, "time_s": round(t, 3), "backend": backend}
+    return results
+
+
+def _sat_one(job):
+    idx, text, timeout_ms = job
+    try:
+        s = z3.Solver()
+        s.set("timeout", timeout_ms)
+        s.from_string(text)
+        r = s.check()
+        return idx, str(r)
+    except Exception:
+        return idx, "unknown"
+
+
+def check_sat_texts(texts, timeout_s=3, nproc=None):
+    jobs = [(i, t, int(timeout_s * 1000)) for i, t in enumerate(texts)]
+    if not jobs:
+        return []
+    nproc = nproc or NPROC
+    if len(jobs) <= 2 or nproc <= 1:
+        outs = [_sat_one(j) for j in jobs]
+    else:
+        with mp.get_context("fork").Pool(min(nproc, len(jobs))) as pool:
+            outs = pool.map(_sat_one, jobs, chunksize=2)
+    res = [None] * len(texts)
+    for idx, status in outs:
+        res[idx] = status
+    return res
